@@ -41,6 +41,8 @@ type cauth struct {
 	prop string
 	mu   sync.Mutex
 	side map[string][]Failure // failures found while running concurrent batches, by case key
+	// batchOuts: what the calls of each batch returned, by case key and line index of the batch line
+	batchOuts map[string]map[int][]string
 }
 
 func (*cauth) UsesModel() bool { return true }
@@ -430,9 +432,15 @@ func (f *authFake) token(cs *callState, req *http.Request, body []byte) (*http.R
 type authConfig struct {
 	entries map[string]ociauth.ConfigEntry
 	fails   map[string]bool
+	// slow: lookups take a moment (a file read, a credential helper), which is when concurrent first
+	// requests to one host meet
+	slow atomic.Bool
 }
 
 func (c *authConfig) EntryForRegistry(host string) (ociauth.ConfigEntry, error) {
+	if c.slow.Load() {
+		time.Sleep(15 * time.Millisecond)
+	}
 	if c.fails[host] {
 		return ociauth.ConfigEntry{}, errors.New("fake config: lookup failed")
 	}
@@ -676,7 +684,7 @@ func (e *cauth) Impl(c Case) []string {
 				break
 			}
 			out[i] = guard(func() string { return parseProbe(hdrs) })
-		case "req":
+		case "req", "areq": // areq: a request after a concurrent batch (the model sits those out)
 			a, ok := parseAuthReq(t)
 			if !ok {
 				out[i] = "bad-op"
@@ -729,6 +737,7 @@ func (e *cauth) Impl(c Case) []string {
 			outs := make([]string, len(reqs))
 			var wg sync.WaitGroup
 			run.transport()
+			run.config.slow.Store(true)
 			for j, a := range reqs {
 				wg.Add(1)
 				go func() {
@@ -737,10 +746,18 @@ func (e *cauth) Impl(c Case) []string {
 				}()
 			}
 			wg.Wait()
+			run.config.slow.Store(false)
 			out[i] = "ok"
 			fs := e.batchOracle(c, i, reqs, outs)
 			e.mu.Lock()
 			e.side[caseKey(c)] = append(e.side[caseKey(c)], fs...)
+			if e.batchOuts == nil {
+				e.batchOuts = map[string]map[int][]string{}
+			}
+			if e.batchOuts[caseKey(c)] == nil {
+				e.batchOuts[caseKey(c)] = map[int][]string{}
+			}
+			e.batchOuts[caseKey(c)][i] = outs
 			e.mu.Unlock()
 			for j := range reqs {
 				out[i+1+j] = "batched"
